@@ -5,6 +5,7 @@ from __future__ import annotations
 from typing import Dict, List, Set, Tuple
 
 from .facts import Run, normal, op_targets
+from .model import AnalysisError
 from .interp import OPS, exc_is_subclass
 from .report import RuleResult
 from .terms import Child, New
@@ -121,7 +122,12 @@ def rule_KC(run: Run) -> RuleResult:
                     bad.add(c)
         # (4) multiset coverage with loops unrolled twice: an element consulted in
         # the second iteration must be keyed as well (not only the last/first one)
-        for k2 in normal(run.paths(cls, "keys", unroll=2)):
+        try:
+            deep = normal(run.paths(cls, "keys", unroll=2, max_steps=6000))
+        except AnalysisError:
+            deep = []
+            res.notes.append(f"{cls.name}.keys: two-iteration unrolling exceeds the step budget; multiset coverage not checked for this class")
+        for k2 in deep:
             for c in set(op_targets(k2, "evaluate")):
                 if "[*]" not in c or c in bad:
                     continue
